@@ -532,6 +532,29 @@ func init() {
 					add(z, 0, "ones")
 				}
 			}
+			// elements with an empty encoding (T[0], empty tuples): nothing but the count word bounds the loop
+			emptyTys := [][]*absTy{
+				{{Kind: "darr", Name: "a", Child: &absTy{Kind: "farr", Len: 0, Child: &absTy{Kind: "uint", M: 256}}}},
+				{{Kind: "darr", Name: "a", Child: &absTy{Kind: "tuple"}}},
+				{{Kind: "darr", Name: "a", Child: &absTy{Kind: "farr", Len: 3, Child: &absTy{Kind: "tuple"}}}},
+				{{Kind: "darr", Name: "a", Child: &absTy{Kind: "darr", Child: &absTy{Kind: "tuple"}}}},
+				{{Kind: "uint", M: 8, Name: "x"}, {Kind: "darr", Name: "a", Child: &absTy{Kind: "farr", Len: 0, Child: &absTy{Kind: "string"}}}},
+			}
+			for _, ts := range emptyTys {
+				for _, cnt := range []*big.Int{big.NewInt(0), big.NewInt(1), big.NewInt(3), big.NewInt(1000), big.NewInt(65535), big.NewInt(65536), big.NewInt(65537), pow2(20), pow2(24), new(big.Int).Sub(pow2(32), big.NewInt(1))} {
+					words := 2 + len(ts) - 1
+					b := make([]byte, 32*words+64)
+					big.NewInt(int64(32 * len(ts))).FillBytes(b[32*(len(ts)-1) : 32*len(ts)])
+					cnt.FillBytes(b[32*len(ts) : 32*len(ts)+32])
+					big.NewInt(32).FillBytes(b[32*len(ts)+32 : 32*len(ts)+64]) // an inner offset, for the nested shape
+					req := map[string]any{"op": "abi.decode", "params": paramsJSON(ts), "hex": hx(b), "offset": 0, "cfg": allCfgs[0]}
+					if cnt.BitLen() > 17 {
+						req["isolate"] = true
+						req["noModel"] = true // judged against the property alone: it must end in an error or a bounded tree
+					}
+					c.Add(req, "emptyelems")
+				}
+			}
 			// the memory claim: a count word of 2^32-1 / 2^28 in 64 bytes
 			darr := &absTy{Kind: "darr", Child: &absTy{Kind: "uint", M: 256}, Name: "a"}
 			for _, cnt := range []*big.Int{new(big.Int).Sub(pow2(32), big.NewInt(1)), pow2(28), pow2(31), pow2(24)} {
@@ -598,6 +621,12 @@ func init() {
 				return []Finding{{Kind: "violation", Region: "abi.decode.memory", Detail: "decode of a small input exhausted memory / killed the (isolated) process"}}
 			}
 			m := impl.(map[string]any)
+			if orc["skipped"] == true {
+				if _, isok := m["dec"].(map[string]any); isok {
+					fs = append(fs, Finding{Kind: "violation", Region: "abi.decode.memory", Detail: "a count word beyond 2^17 over elements with an empty encoding was honoured: work and memory driven by one word of the input"})
+				}
+				return fs
+			}
 			if !same(m["dec"], orc["model"]) {
 				fs = append(fs, Finding{Kind: "mismatch", Region: "abi.decode", Detail: "decode of arbitrary bytes differs from model"})
 				return fs
